@@ -208,8 +208,21 @@ class SRun:
             env_fired[k] = True
             h.apply(dict(env_events[k]))  # the delivery agent acts now (on disk, and in the reference model)
 
+        offered: set = set()
+
+        def feed_now(sn):
+            offered.discard(sn)
+            feed(sn)
+
         def extra():
-            ev = [(f"In{sn}", (lambda sn=sn: feed(sn)), True) for sn in sorted(cmds) if can_feed(sn)]
+            # a client's next command is sent at once by default; once a schedule has chosen to let
+            # something else happen first, the command stays postponed (one deviation, not one per step)
+            # until it is chosen or nothing else can run
+            ev = []
+            for sn in sorted(cmds):
+                if can_feed(sn):
+                    late = sn in offered and self.scn.get("sticky_inputs", True)
+                    ev.append((f"In{sn}", (lambda sn=sn: feed_now(sn)), "late" if late else True))
             # environment events are never the default: firing one is a deviation
             ev += [(f"Env{k}", (lambda k=k: fire_env(k)), False) for k in range(len(env_events)) if not env_fired[k]]
             return ev
@@ -224,7 +237,21 @@ class SRun:
                     return False
             return True
 
+        def after_step(labels, c):
+            for i, lab in enumerate(labels):
+                if lab.startswith("In") and i != c:
+                    offered.add(lab[2:])
+
         w.loop.extra_events = extra
+        w.loop.after_step = after_step
+        # set-up of a non-initial state: these sessions' first command is sent now and its writer parks at
+        # the first drain (the peer reads slowly); the command is "in progress" when the others start
+        for sn in self.scn.get("parked", ()):
+            w.sessions[sn].writer.drain_mode = 9
+            feed(sn)
+            w.loop.run_until(lambda: any(lab == f"Dr{sn}" for lab, f in getattr(w.loop, "parked_drains", []) if not f.done()),
+                             allow_timers=False)
+            w.sessions[sn].writer.drain_mode = 0
         w.sched.recording = True
         for sn in self.scn.get("slow", ()):  # peers that may read slowly: each writer.drain() is a choice point
             if sn in w.sessions:
@@ -235,6 +262,7 @@ class SRun:
         finally:
             w.sched.recording = False
             w.loop.extra_events = None
+            w.loop.after_step = None
             for sn in self.scn.get("slow", ()):
                 if sn in w.sessions:
                     w.sessions[sn].writer.drain_mode = 0
@@ -252,6 +280,14 @@ class SRun:
                     results[key] = ("OK",) if out_.startswith(b"+OK") else (("REFUSED",) if out_.startswith(b"-ERR") else ("NONE",))
                     if results[key] == ("NONE",) and not s.task.done():
                         self.fail("C10.command-never-answered", {"op": "pop:" + ev["line"].split()[0], "parked": _parked(w)}, "a reply", None)
+                    if ev.get("expect_cid") and results[key] == ("OK",):
+                        # RETR/TOP n: the snapshot's n-th message or -ERR, never another message
+                        from .. import msgs as _msgs
+
+                        end = out_.find(b"\r\n.\r\n")
+                        got_cid = _msgs.cid_of(out_[: end if end >= 0 else len(out_)])
+                        if got_cid != ev["expect_cid"]:
+                            self.fail("C20.retr-other-message", {"cmd": ev["line"].split()[0]}, ev["expect_cid"], got_cid)
                     continue
                 r = s.tagged(tg) if tg else None
                 if r is None:
@@ -259,6 +295,10 @@ class SRun:
                         self.fail("C10.command-never-answered", {"op": ev["op"], "uid": ev.get("uid", False), "parked": _parked(w)},
                                   "tagged reply", None)
                     results[key] = ("NONE",)
+                    if s.task.done() and sn in (list(self.scn.get("slow", ())) + list(self.scn.get("parked", ()))) and ev["op"] in ("fetch", "search", "noop"):
+                        # a peer that did not read for 2 s is disconnected (push()'s write timeout): its
+                        # read-only command has no outcome to judge
+                        results[key] = ("DROPPED",)
                     continue
                 took = None
                 for x in s.responses:
@@ -366,7 +406,7 @@ def judge(scn, sig_obs, model0, env_fired=()):
         m = normalise_model_sig(res_items, cmds)
         ok = True
         for key, val in results.items():
-            if key.startswith("~"):
+            if key.startswith("~") or val[0] == "DROPPED":
                 continue
             mv = m.get(key)
             if mv is None:
